@@ -39,6 +39,14 @@ pub struct TableDP {
     pub v0: isize,
     /// does the state carry its depth (true) or not (false: "depth-free")
     pub embed_depth: bool,
+    /// Some((bx, by)): "lattice" variant. The atoms are the points (x, y) of a bx x by grid
+    /// (atom = x * by + y), the tables are monotone in the product order (a greater atom offers
+    /// at least the same decisions, at least the same costs and potentials, and leads to a greater
+    /// or equal atom), every state is a singleton and merge = component-wise max (join).
+    /// Unlike the union of the powerset variant, the join of some nodes may coincide with the
+    /// state of another node of the same layer (the "recycled merged node" path of the diagrams).
+    #[serde(default)]
+    pub join: Option<(usize, usize)>,
 }
 
 impl TableDP {
@@ -88,6 +96,16 @@ impl TableDP {
         }
         m
     }
+    pub fn leq(&self, a: usize, b: usize) -> bool {
+        match self.join {
+            Some((_, by)) => a / by <= b / by && a % by <= b % by,
+            None => a == b,
+        }
+    }
+    pub fn join_atoms(&self, a: usize, b: usize) -> usize {
+        let (_, by) = self.join.expect("join_atoms on a powerset model");
+        (a / by).max(b / by) * by + (a % by).max(b % by)
+    }
     pub fn mk_state(&self, depth: usize, set: u32) -> St {
         St { depth: if self.embed_depth { depth } else { 0 }, set }
     }
@@ -119,6 +137,27 @@ impl TableDP {
         for l in 0..=self.n {
             for a in 0..self.b {
                 assert!(self.psi[l][a] >= 0);
+            }
+        }
+        if let Some((bx, by)) = self.join {
+            assert_eq!(bx * by, self.b);
+            assert!(!self.has_irrelevance());
+            for l in 0..=self.n {
+                for a in 0..self.b {
+                    for c in 0..self.b {
+                        if self.leq(a, c) {
+                            assert!(self.psi[l][a] <= self.psi[l][c], "potential not monotone");
+                            if l < self.n {
+                                for d in 0..self.nd {
+                                    if let Some((nx, co)) = self.delta[l][a][d] {
+                                        let (nx2, co2) = self.delta[l][c][d].expect("domain not monotone");
+                                        assert!(self.leq(nx, nx2) && co <= co2, "transition not monotone");
+                                    }
+                                }
+                            }
+                        }
+                    }
+                }
             }
         }
     }
@@ -393,7 +432,7 @@ pub enum DomMode {
     None,
     /// coordinates = h* (one per layer for depth-free states), value used
     Exact,
-    /// (h*, r(atom)) : fewer comparable pairs; r generated
+    /// h* rule restricted to atoms of the same generated class r(atom): fewer comparable pairs
     Weak(Vec<isize>),
     /// Exact rule but states are partitioned in `m` key classes and atoms in `none_mask` have no key
     Keyed { m: u32, none_mask: u32 },
@@ -440,6 +479,16 @@ impl Relaxation for TRelax<'_> {
         for s in states {
             set |= s.set;
             depth = s.depth;
+        }
+        if self.t.join.is_some() {
+            // lattice variant: the join of all the atoms
+            let mut j: Option<usize> = None;
+            for a in 0..self.t.b {
+                if set >> a & 1 == 1 {
+                    j = Some(j.map_or(a, |x| self.t.join_atoms(x, a)));
+                }
+            }
+            set = 1 << j.unwrap_or(0);
         }
         St { depth, set }
     }
@@ -527,14 +576,16 @@ impl Dominance for TDom<'_> {
                     Some(state.set % (*m).max(1))
                 }
             }
+            // "weakened" rule: two states are only comparable when their atoms have the same generated
+            // class r. (r must not be a *coordinate*: a state that is merely tied on h* and value but has a
+            // greater r would "dominate" without being strictly better, which lets stale store entries
+            // prune in circles - DESIGN §11, false alarm 1.)
+            DomMode::Weak(r) => Some((0..self.t.b).filter(|a| state.set >> a & 1 == 1).map(|a| r[a] as u32).max().unwrap_or(0)),
             _ => Some(0),
         }
     }
     fn nb_dimensions(&self, _: &St) -> usize {
-        match self.mode {
-            DomMode::Weak(_) => self.nb_h_dims() + 1,
-            _ => self.nb_h_dims(),
-        }
+        self.nb_h_dims()
     }
     fn get_coordinate(&self, s: &St, i: usize) -> isize {
         if i < self.nb_h_dims() {
@@ -548,9 +599,6 @@ impl Dominance for TDom<'_> {
             } else {
                 0 // only exact (singleton) states are ever submitted to the checker
             }
-        } else if let DomMode::Weak(r) = self.mode {
-            // a set inherits the max of its atoms (only singletons are ever checked)
-            (0..self.t.b).filter(|a| s.set >> a & 1 == 1).map(|a| r[a]).max().unwrap_or(0)
         } else {
             0
         }
@@ -580,24 +628,26 @@ impl GenParams {
 }
 
 #[derive(Clone, Debug)]
-struct Raw {
-    n: usize,
-    b: usize,
-    nd: usize,
-    order_keys: Vec<u8>,
-    trans: Vec<(u8, u8, i8)>,
-    psi: Vec<u8>,
-    relv: Vec<u8>,
-    flags: (bool, bool, bool),
-    scale: isize,
-    p_absent: u8,
-    p_irr: u8,
-    init: u8,
-    v0: i8,
+pub struct Raw {
+    pub n: usize,
+    pub b: usize,
+    pub nd: usize,
+    pub order_keys: Vec<u8>,
+    pub trans: Vec<(u8, u8, i8)>,
+    pub psi: Vec<u8>,
+    pub relv: Vec<u8>,
+    pub flags: (bool, bool, bool),
+    /// lattice variant requested (only honoured when b == 4 and no irrelevance)
+    pub join_on: bool,
+    pub scale: isize,
+    pub p_absent: u8,
+    pub p_irr: u8,
+    pub init: u8,
+    pub v0: i8,
 }
 
-fn build(raw: Raw, p: &GenParams) -> TableDP {
-    let Raw { n, b, nd, order_keys, trans, psi, relv, flags, scale, p_absent, p_irr, init, v0 } = raw;
+pub fn build(raw: Raw, p: &GenParams) -> TableDP {
+    let Raw { n, b, nd, order_keys, trans, psi, relv, flags, join_on, scale, p_absent, p_irr, init, v0 } = raw;
     let (embed_raw, pot_on, irr_on) = flags;
     let embed_depth = p.embed.unwrap_or(embed_raw);
     let irr = p.allow_irrelevance && irr_on && !embed_depth;
@@ -634,7 +684,33 @@ fn build(raw: Raw, p: &GenParams) -> TableDP {
             }
         }
     }
-    let t = TableDP { n, b, nd, order, delta, psi: psi_t, relevant, init: (init as usize * b) >> 8, v0: v0 as isize, embed_depth };
+    let mut t = TableDP { n, b, nd, order, delta, psi: psi_t, relevant, init: (init as usize * b) >> 8, v0: v0 as isize, embed_depth, join: None };
+    if join_on && b == 4 && !irr {
+        // make the tables monotone in the product order of the 2 x 2 grid, bottom-up
+        t.join = Some((2, 2));
+        let preds: [&[usize]; 4] = [&[], &[0], &[0], &[1, 2]];
+        for l in 0..=n {
+            for a in 0..4 {
+                for p in preds[a] {
+                    t.psi[l][a] = t.psi[l][a].max(t.psi[l][*p]);
+                }
+            }
+        }
+        for l in 0..n {
+            for a in 0..4 {
+                for p in preds[a] {
+                    for d in 0..nd {
+                        if let Some((pn, pc)) = t.delta[l][*p][d] {
+                            t.delta[l][a][d] = Some(match t.delta[l][a][d] {
+                                Some((an, ac)) => (t.join_atoms(an, pn), ac.max(pc)),
+                                None => (pn, pc),
+                            });
+                        }
+                    }
+                }
+            }
+        }
+    }
     t.validate();
     t
 }
@@ -654,15 +730,15 @@ pub fn table_strategy(p: GenParams) -> impl Strategy<Value = TableDP> {
         prop::collection::vec(any::<u8>(), NMAX * BMAX),
     );
     let scalars = (
-        (any::<bool>(), any::<bool>(), any::<bool>()),
+        ((any::<bool>(), any::<bool>(), any::<bool>()), prop::sample::select(vec![false, false, true])),
         prop::sample::select(vec![1isize, 2, 5, 10, 10]),
         prop::sample::select(vec![0u8, 30, 60, 110]),
         prop::sample::select(vec![60u8, 100, 160]),
         any::<u8>(),
         -5i8..=5i8,
     );
-    (dims, arrays, scalars).prop_map(move |((n, b, nd), (order_keys, trans, psi, relv), (flags, scale, p_absent, p_irr, init, v0))| {
-        build(Raw { n, b, nd, order_keys, trans, psi, relv, flags, scale, p_absent, p_irr, init, v0 }, &p)
+    (dims, arrays, scalars).prop_map(move |((n, b, nd), (order_keys, trans, psi, relv), ((flags, join_on), scale, p_absent, p_irr, init, v0))| {
+        build(Raw { n, b, nd, order_keys, trans, psi, relv, flags, join_on, scale, p_absent, p_irr, init, v0 }, &p)
     })
 }
 
@@ -691,6 +767,6 @@ pub fn exhaustive_instance(idx: u32, cost_table: usize) -> TableDP {
             }
         }
     }
-    TableDP { n, b, nd, order: vec![0, 1, 2], delta, psi: vec![vec![0; b]; n + 1], relevant: vec![vec![true; b]; n], init: 0, v0: 0, embed_depth: true }
+    TableDP { n, b, nd, order: vec![0, 1, 2], delta, psi: vec![vec![0; b]; n + 1], relevant: vec![vec![true; b]; n], init: 0, v0: 0, embed_depth: true, join: None }
 }
 pub const EXHAUSTIVE_SPACE: u32 = 531_441; // 3^12
